@@ -259,6 +259,7 @@ def explore(ctx, kind, init, program, world, rng, bound, limit, nrandom):
     n = 0
     mode = "dfs"
     rwalks = 0
+    deep = sched.Deepening(bound, limit)
     while True:
         r = sched.run_schedule(make, progs, prefix=prefix if mode == "dfs" else (), rng=None if mode == "dfs" else rng)
         s = r["sched"]
@@ -289,9 +290,9 @@ def explore(ctx, kind, init, program, world, rng, bound, limit, nrandom):
             ctx.viol(k, f"{desc}: concurrent results {res} with continuation {fp} equal no sequential ordering (schedule {list(key)}; {len(spec)} sequential outcomes)", {"desc": desc, "schedule": list(key)})
             return
         if mode == "dfs":
-            nxt = sched.next_prefix(s.trace, bound)
-            if nxt is None or n >= limit:
-                if nxt is None:
+            nxt = deep.next(s.trace)
+            if nxt is None:
+                if deep.exhausted:
                     ctx.cnt["programs_dfs_exhausted_within_bound"] += 1
                 mode = "random"
                 continue
@@ -400,6 +401,7 @@ def explore_moving(ctx, prog, world, rng, bound, limit, nrandom, first_prefix=()
     n = 0
     mode = "dfs"
     rw = 0
+    deep = sched.Deepening(bound, limit)
     while True:
         r = sched.run_schedule(make, progs, prefix=prefix if mode == "dfs" else (), rng=None if mode == "dfs" else rng)
         s = r["sched"]
@@ -436,8 +438,8 @@ def explore_moving(ctx, prog, world, rng, bound, limit, nrandom, first_prefix=()
             ctx.viol("window-rule-broken-while-clock-moves", f"{bad}; program {prog}; schedule {list(key)}; operations {[(o['name'], o['result'], o['t_call'] - T0, o['t_ret'] - T0) for o in sorted(ops, key=lambda o: o['s_call'])]}", payload)
             return
         if mode == "dfs":
-            nxt = sched.next_prefix(s.trace, bound)
-            if nxt is None or n >= limit:
+            nxt = deep.next(s.trace)
+            if nxt is None:
                 mode = "random"
                 if nrandom <= 0:
                     break
